@@ -37,13 +37,19 @@ def time_limit(seconds: int):
     def handler(signum, frame):
         raise Timeout()
 
+    import time as _time
+
     old = signal.signal(signal.SIGALRM, handler)
-    signal.alarm(seconds)
+    prev = signal.alarm(0)                       # seconds left on an enclosing limit (0 = none)
+    signal.alarm(min(seconds, prev) if prev else seconds)
+    t0 = _time.time()
     try:
         yield
     finally:
         signal.alarm(0)
         signal.signal(signal.SIGALRM, old)
+        if prev:                                 # re-arm the enclosing limit with what is left of it
+            signal.alarm(max(1, int(prev - (_time.time() - t0))))
 
 
 def canon_post(stmts) -> list:
